@@ -11,8 +11,26 @@ ASSUMPTIONS = ['theorems are about Msimple (Tame types: 61 Flat + 7 RootChoice);
 KINDS = ['mixed', 'mixed', 'fwd', 'mixed', 'word', 'perm', 'mixed', 'worddup']
 
 
+def _oracle(d):
+    at = d.get('at', '')
+    return 'children views / parents / serialisation (C06) at %s: library %s, model %s' % (at, d.get('real'), d.get('model')) if (at.startswith('tostr') or at.startswith('add') or at.startswith('rm') or at.startswith('repl') or at.startswith('dotx')) else None
+
+
 def run(ctx):
-    return mc.generic_run(ctx, 'C06', KINDS, n_quick=12, n_thorough=150)
+    from props import element_common as ec
+    a = mc.generic_run(ctx, 'C06', KINDS, n_quick=12, n_thorough=150)
+    b = ec.generic(ctx, 'C06', {'depths': [0, 1, 2], 'mixed': 0.3, 'copy': 0.2, 'dots': True}, n_quick=(24, 40), n_thorough=(96, 200),
+                   with_values=False, oracle=_oracle)
+    out = dict(a)
+    out['violations'] = a['violations'] + b['violations']
+    out['known'] = a['known'] + [k for k in b['known'] if k not in a['known']]
+    out['evaluations'] = a['evaluations'] + b['evaluations']
+    out['distinct_nontrivial'] = a['distinct_nontrivial'] + b['distinct_nontrivial']
+    out['disagreements'] = a['disagreements'] + b['disagreements']
+    out['rule'] = a['rule'] + ' || element engine: ' + b['rule']
+    out['samples'] = a['samples'][:5] + b['samples'][:2]
+    out['coverage'] = dict(a['coverage'], element_engine=b['coverage'])
+    return out
 
 
 def replay(ctx, payload):
